@@ -331,6 +331,18 @@ example : ((applyConfig { n := 3, idOf := fun i => s!"n{i}", tagsOf := fun i => 
       ⟨fun _ => 1, fun i => i == 1⟩ [⟨.name "g", some 9, none⟩]).toOption.map
         fun a' => (a'.prio 0, a'.prio 1, a'.prio 2, a'.seq 0, a'.seq 1)) = some (9, 9, 1, false, true) := by decide
 
+-- non-vacuity of the refusal law: a valid priority change for the tag "g" FIRST, a malformed entry for node n2 LAST — the shape
+-- the pinned tree applied half-way: the whole configuration is refused and the state after the call is the state before it
+example :
+    let nm : Naming := { n := 3, idOf := fun i => s!"n{i}", tagsOf := fun i => if i < 2 then ["g"] else [] }
+    let a : Attr := ⟨fun _ => 1, fun i => i == 1⟩
+    let res : List RawEntry := [⟨⟨.name "g", some 9, none⟩, true⟩, ⟨⟨.name "n2", none, none⟩, false⟩]
+    (match applyRaw nm a res with | .error .malformed => true | _ => false) = true ∧
+    ((reconfigure nm a res).prio 0, (reconfigure nm a res).prio 1, (reconfigure nm a res).prio 2) = (1, 1, 1) ∧
+    -- ... and the corrected configuration, given afterwards, applies from the untouched state
+    ((reconfigure nm (reconfigure nm a res) [⟨⟨.name "g", some 9, none⟩, true⟩]).prio 0,
+     (reconfigure nm (reconfigure nm a res) [⟨⟨.name "g", some 9, none⟩, true⟩]).prio 2) = (9, 1) := by decide
+
 /-- C03 (ids): node ids are (base name, number of earlier registrations of that base name) — `f`, `f<<1>>`, … — so
     whatever sequence of call sites a description registers, all ids are distinct: one node per call site. -/
 theorem C03_call_site_ids_distinct (bases : List String) : (GM.allocAll [] bases).Nodup :=
